@@ -48,7 +48,7 @@ def run_worker(prop, job, tier, seed, jit, timeout):
 
 
 def write_replay(prop, seed, k, obj):
-    core.REPLAYS.mkdir(exist_ok=True)
+    core.REPLAYS.mkdir(parents=True, exist_ok=True)
     p = core.REPLAYS / f"{prop}-{seed}-{k}.json"
     p.write_text(json.dumps(core.jsonable(obj), indent=1))
     return p
@@ -243,7 +243,7 @@ def check(prop, tier, seed):
         wall_s=round(wall, 2), violations=len(unlisted) + (1 if (broken and not unlisted) else 0),
         known_findings=known_lines,
     )
-    core.EVIDENCE.mkdir(exist_ok=True)
+    core.EVIDENCE.mkdir(parents=True, exist_ok=True)
     (core.EVIDENCE / f'{prop}.json').write_text(json.dumps(core.jsonable(ev), indent=1))
     print(f"{prop} {tier} seed={seed}: obligations {len(discharged)}/{len(obligations)}, evaluations {evaluations}, "
           f"distinct non-trivial {len(nontrivial)}, disagreements {len(disagreements)}, violations {len(unlisted)}, "
